@@ -101,6 +101,9 @@ def mutate(rng, text, level):
         if rng.random() < 0.1 * level:
             name = name.lower()
             muts.append("lowercase_name")
+        if rng.random() < 0.05 * level and head == "" and out:
+            head = rng.choice(["  ", " ", "\t", "    "])
+            muts.append("indented_record")
         lines = body.split("\n")
         new_lines = []
         for li, line in enumerate(lines):
@@ -138,6 +141,9 @@ def mutate(rng, text, level):
         if len(r2) > 2:
             k = rng.randint(1, len(r2) - 1)
             extra = rng.choice(["$WARNINGS NONE\n", "$ABBR COMRES=2\n", "$PRIOR NWPRI\n", "$MIX\nNSPOP=2\n", "$LEVEL SID=(3)\n", "$ANNEAL 1-3:0.3\n"])
+            if rng.random() < 0.4:
+                extra = rng.choice(["  ", " ", "\t"]) + extra
+                muts.append("indented_record")
             r2.insert(k, ("RAW", extra))
             text2 = p2 + "".join(raw for _, raw in r2)
             muts.append("unknown_record")
@@ -191,6 +197,9 @@ def edit_table():
     def e_add_theta(m, r):
         return pm.add_population_parameter(m, f"NEWTH{r.randint(1, 99)}", 0.5, lower=0)
 
+    def e_description(m, r):
+        return pm.set_description(m, r.choice(["another title", "run 17 refit", "x"])).update_source()
+
     # edit -> (callable, set of record kinds the edit may legitimately touch)
     return {
         "set_init_theta": (e_init, {"THETA"}),
@@ -203,6 +212,7 @@ def edit_table():
         "set_error_model": (e_error, {"ERROR", "PRED", "SIGMA", "THETA", "PK", "DES", "OMEGA", "ABBREVIATED"}),
         "add_iiv": (e_add_iiv, {"PK", "PRED", "OMEGA", "ABBREVIATED"}),
         "add_theta": (e_add_theta, {"THETA"}),
+        "set_description": (e_description, {"PROBLEM"}),
     }
 
 
@@ -303,7 +313,7 @@ def run_case(rng, idx, tier):
     c.sample["edit"] = name
     # comments next to statements that the edit replaces may go with them: only edits that merely add statements
     # are required to keep every comment line of the code record they touch
-    msg = frame_check(text, code, affected, comments=(name in ("add_iiv", "add_theta")))
+    msg = frame_check(text, code, affected, comments=(name in ("add_iiv", "add_theta", "set_description")))
     if msg:
         c.violate(_classify_C(text, code, name, msg), f"after {name}: {msg}", {"code": code.splitlines()[:80]})
     c.nontrivial = len(recs) >= 5
@@ -324,7 +334,7 @@ def frame_check(text, code, affected, comments=True):
                 return f"unrelated ${a[0]} record changed: {a[1]!r} -> {b[1]!r}"
         return f"unrelated records added/removed: {[k for k, _ in keep1]} -> {[k for k, _ in keep2]}"
     # comment / verbatim lines of affected code records survive in order
-    for kind in ("PK", "PRED", "ERROR", "DES"):
+    for kind in ("PK", "PRED", "ERROR", "DES", "PROBLEM"):
         if kind not in affected or not comments:
             continue
         old = [l.strip() for k, raw in r1 if k == kind for l in raw.splitlines()[1:] if l.strip().startswith(";") or l.strip().startswith('"')]
